@@ -114,6 +114,7 @@ func Load(opt Options) (*Program, error) {
 		if p.inLib(fn) {
 			p.LibFns = append(p.LibFns, fn)
 			p.libSet[fn] = true
+			LibraryFuncs[fn] = true
 			if fd, ok := fn.Syntax().(*ast.FuncDecl); ok && fn.Origin() == nil {
 				p.astFunc[fd] = fn
 			}
